@@ -130,9 +130,16 @@ fn check_string(text: &[u8], job: &str, res: &mut ShardResult) {
             for (_, deps) in &entries {
                 // (Targets are not used by n2; only prerequisites are checked.)
                 for w in deps.iter() {
+                    // Within one entry the words keep their input order; a
+                    // target repeated in a later entry is merged into the
+                    // first one, so across entries only presence is checked.
                     match find(hay, w.as_bytes(), pos) {
                         Some(at) => pos = at + w.len(),
-                        None => ok = false,
+                        None => {
+                            if find(hay, w.as_bytes(), 0).is_none() {
+                                ok = false;
+                            }
+                        }
                     }
                     if w.is_empty() || w.bytes().any(|c| c == b' ' || c == b'\n') {
                         ok = false;
